@@ -623,3 +623,27 @@ mod boilterplate_tests {
     );
   }
 }
+
+/// Verification hooks (only with `--cfg samlang_verif`): expose the private arithmetic kernels.
+#[cfg(samlang_verif)]
+pub(crate) mod verif {
+  use super::*;
+
+  pub(crate) fn evaluate_bin_op(operator: BinaryOperator, v1: i32, v2: i32) -> Option<i32> {
+    super::evaluate_bin_op(operator, v1, v2)
+  }
+
+  pub(crate) fn merge_binary_expression(
+    outer_operator: BinaryOperator,
+    inner_operator: BinaryOperator,
+    inner_const: i32,
+    outer_const: i32,
+  ) -> Option<(BinaryOperator, i32)> {
+    let inner = BinaryExpression {
+      operator: inner_operator,
+      e1: VariableName::new(PStr::LOWER_A, INT_32_TYPE),
+      e2: inner_const,
+    };
+    super::merge_binary_expression(outer_operator, &inner, outer_const).map(|b| (b.operator, b.e2))
+  }
+}
